@@ -1,0 +1,65 @@
+// Copyright 2017 Pilosa Corp.
+//
+// Licensed under the Apache License, Version 2.0 (the "License");
+// you may not use this file except in compliance with the License.
+// You may obtain a copy of the License at
+//
+//     http://www.apache.org/licenses/LICENSE-2.0
+//
+// Unless required by applicable law or agreed to in writing, software
+// distributed under the License is distributed on an "AS IS" BASIS,
+// WITHOUT WARRANTIES OR CONDITIONS OF ANY KIND, either express or implied.
+// See the License for the specific language governing permissions and
+// limitations under the License.
+
+//go:build verif
+// +build verif
+
+package pilosa
+
+import "strconv"
+
+// Export shims for the verification harness (/verif, property C30). Add-only, tag-guarded.
+
+// VerifC30Contents returns every bit of the standard view of a field as a (row label, column
+// label) pair: the key where the dimension uses keys, the decimal id otherwise. It reads rows
+// through fragment.rows/row (not through forEachBit, which the export path uses).
+func VerifC30Contents(api *API, indexName, fieldName string) ([][2]string, error) {
+	index := api.holder.Index(indexName)
+	if index == nil {
+		return nil, ErrIndexNotFound
+	}
+	field := index.Field(fieldName)
+	if field == nil {
+		return nil, ErrFieldNotFound
+	}
+	v := field.view(viewStandard)
+	if v == nil {
+		return nil, nil
+	}
+	var out [][2]string
+	for _, frag := range v.allFragments() {
+		for _, rowID := range frag.rows(0) {
+			rowStr := strconv.FormatUint(rowID, 10)
+			if field.keys() {
+				s, err := api.holder.translateFile.TranslateRowToString(indexName, fieldName, rowID)
+				if err != nil {
+					return nil, err
+				}
+				rowStr = s
+			}
+			for _, colID := range frag.row(rowID).Columns() {
+				colStr := strconv.FormatUint(colID, 10)
+				if index.Keys() {
+					s, err := api.holder.translateFile.TranslateColumnToString(indexName, colID)
+					if err != nil {
+						return nil, err
+					}
+					colStr = s
+				}
+				out = append(out, [2]string{rowStr, colStr})
+			}
+		}
+	}
+	return out, nil
+}
